@@ -107,6 +107,14 @@ func (s *Store) ProposeMerge(targetRegionID, sourceRegionID uint64) error {
 	if status := peer.Status(); status.RaftState != myraft.StateLeader {
 		return fmt.Errorf("raftstore: peer %d is not leader", peer.ID())
 	}
+	// Refuse before proposing what the apply handler would reject on every replica.
+	if targetMeta, ok := s.RegionMetaByID(targetRegionID); ok {
+		if sourceMeta, ok := s.RegionMetaByID(sourceRegionID); ok {
+			if _, err := mergedRegionMeta(targetMeta, sourceMeta); err != nil {
+				return err
+			}
+		}
+	}
 	cmd := &pb.AdminCommand{
 		Type: pb.AdminCommand_MERGE,
 		Merge: &pb.MergeCommand{
@@ -181,10 +189,9 @@ func (s *Store) handleMergeCommand(merge *pb.MergeCommand) error {
 	if !ok {
 		return fmt.Errorf("raftstore: source region %d not found", merge.GetSourceRegionId())
 	}
-	updated := parentMeta
-	updated.Epoch.Version++
-	if len(sourceMeta.EndKey) == 0 || bytes.Compare(sourceMeta.EndKey, updated.EndKey) > 0 {
-		updated.EndKey = append([]byte(nil), sourceMeta.EndKey...)
+	updated, err := mergedRegionMeta(parentMeta, sourceMeta)
+	if err != nil {
+		return err
 	}
 	if err := s.UpdateRegion(updated); err != nil {
 		return err
@@ -196,6 +203,26 @@ func (s *Store) handleMergeCommand(merge *pb.MergeCommand) error {
 		return err
 	}
 	return nil
+}
+
+// mergedRegionMeta returns target extended over source. The two regions must be
+// distinct and adjacent: source is either the right neighbour (target.EndKey ==
+// source.StartKey) or the left neighbour (source.EndKey == target.StartKey).
+func mergedRegionMeta(target, source manifest.RegionMeta) (manifest.RegionMeta, error) {
+	if target.ID == source.ID {
+		return target, fmt.Errorf("raftstore: cannot merge region %d into itself", target.ID)
+	}
+	updated := target
+	updated.Epoch.Version++
+	switch {
+	case len(target.EndKey) > 0 && bytes.Equal(target.EndKey, source.StartKey):
+		updated.EndKey = append([]byte(nil), source.EndKey...)
+	case len(target.StartKey) > 0 && bytes.Equal(source.EndKey, target.StartKey):
+		updated.StartKey = append([]byte(nil), source.StartKey...)
+	default:
+		return target, fmt.Errorf("raftstore: merge source %d is not adjacent to target %d", source.ID, target.ID)
+	}
+	return updated, nil
 }
 
 func regionMetaToPB(meta manifest.RegionMeta) *pb.RegionMeta {
